@@ -7,6 +7,7 @@
 From Coq Require Import List Arith Reals Permutation.
 Import ListNotations.
 From Yaqs Require Import Base.Num Model.NoiseAttrib Proofs.NoiseAttribP Model.JumpPipeline Proofs.JumpPipelineP.
+From Yaqs Require Import Proofs.DissipationP.
 
 Theorem C01_weight_belongs_to_its_process : forall (N : Num) L dt ns (l : list (proc N)) k p,
   nth_error l k = Some p -> nth_error (weights N L dt ns l) k = Some (weight N L dt ns p).
@@ -47,3 +48,15 @@ Theorem C01_order2_dissipation_budget : forall sched j, 1 <= j ->
   count_sym Dh (sample2 sched j) = 2 /\ count_sym D1 (sample2 sched j) = j - 1.
 Proof. exact order2_dissipation_budget. Qed.
 Print Assumptions C01_order2_dissipation_budget.
+
+(* the dissipation sweep (apply_dissipation): every process the sweep reaches is damped exactly once, at its own site (a two-site
+   process at its right site); the correspondence check identifies the operator contracted in with the exponential built from that
+   process's OWN strength and compares the order with damp_schedule *)
+Theorem C01_every_process_damped_once : forall L kinds k kd, nth_error kinds k = Some kd -> damp_reached L kd = true ->
+  cnt k (map snd (damp_schedule L kinds)) = 1%nat.
+Proof. exact damped_exactly_once. Qed.
+Print Assumptions C01_every_process_damped_once.
+Theorem C01_damped_at_own_site : forall L kinds i k, In (i, k) (damp_schedule L kinds) ->
+  exists kd, nth_error kinds k = Some kd /\ damp_here i kd = true.
+Proof. exact damped_at_own_site. Qed.
+Print Assumptions C01_damped_at_own_site.
